@@ -330,6 +330,7 @@ func genC07(t *rapid.T) any {
 		if rapid.Bool().Draw(t, "subwhere") {
 			c.Sub += fmt.Sprintf(" WHERE %s %s %s", sc.p, rapid.SampledFrom(cmpOps).Draw(t, "subop"), sq.NumLit(rapid.SampledFrom([]float64{1, 2, 3, 5}).Draw(t, "subc")))
 		}
+		c.Sub += genSubTail(t, sc.p, "subtail")
 		c.Outer = fmt.Sprintf("SELECT %s, %s FROM t WHERE %s IN (%s)", sc.k, sc.v, sc.k, c.Sub)
 	case "in-sub-root":
 		// IN over a root table, optionally correlated with the outer row
@@ -337,13 +338,19 @@ func genC07(t *rapid.T) any {
 		c.SubOnDoc = true
 		if rapid.Bool().Draw(t, "correlated") {
 			op := rapid.SampledFrom([]string{"<=", ">=", "!=", "<"}).Draw(t, "corrop")
-			c.Sub = fmt.Sprintf("SELECT %s FROM t2 WHERE %s %s {OUTER:%s}", sc.t2c, sc.t2c, op, sc.v)
-			c.Outer = fmt.Sprintf("SELECT %s, %s FROM t WHERE %s IN (SELECT %s FROM `<-t2` WHERE %s %s `<-.%s`)", sc.k, sc.v, sc.k, sc.t2c, sc.t2c, op, sc.v)
+			tail := genSubTail(t, sc.t2c, "subtail")
+			c.Sub = fmt.Sprintf("SELECT %s FROM t2 WHERE %s %s {OUTER:%s}%s", sc.t2c, sc.t2c, op, sc.v, tail)
+			c.Outer = fmt.Sprintf("SELECT %s, %s FROM t WHERE %s IN (SELECT %s FROM `<-t2` WHERE %s %s `<-.%s`%s)", sc.k, sc.v, sc.k, sc.t2c, sc.t2c, op, sc.v, tail)
 		} else {
 			cst := sq.NumLit(rapid.SampledFrom([]float64{1, 2, 3}).Draw(t, "subc"))
 			op := rapid.SampledFrom(cmpOps).Draw(t, "subop")
-			c.Sub = fmt.Sprintf("SELECT %s FROM t2 WHERE %s %s %s", sc.t2c, sc.t2c, op, cst)
-			c.Outer = fmt.Sprintf("SELECT %s, %s FROM t WHERE %s IN (SELECT %s FROM `<-t2` WHERE %s %s %s)", sc.k, sc.v, sc.k, sc.t2c, sc.t2c, op, cst)
+			tail := genSubTail(t, sc.t2c, "subtail")
+			where := fmt.Sprintf(" WHERE %s %s %s", sc.t2c, op, cst)
+			if rapid.IntRange(0, 2).Draw(t, "nowhere") == 0 {
+				where = "" // the plain form: one bare column of one table
+			}
+			c.Sub = fmt.Sprintf("SELECT %s FROM t2%s%s", sc.t2c, where, tail)
+			c.Outer = fmt.Sprintf("SELECT %s, %s FROM t WHERE %s IN (SELECT %s FROM `<-t2`%s%s)", sc.k, sc.v, sc.k, sc.t2c, where, tail)
 		}
 	case "exists":
 		// predicate over element columns p,q and outer columns k,s,v (names disjoint)
@@ -584,4 +591,17 @@ func out0(rows []any, fallback map[string]any) map[string]any {
 		}
 	}
 	return map[string]any{}
+}
+
+// genSubTail draws what may follow the WHERE of a subquery: nothing (mostly), DISTINCT-free ordering and a window.
+func genSubTail(t *rapid.T, col string, label string) string {
+	switch rapid.IntRange(0, 5).Draw(t, label) {
+	case 0:
+		return fmt.Sprintf(" ORDER BY %s%s LIMIT %d", col, rapid.SampledFrom([]string{"", " DESC"}).Draw(t, label+".dir"), rapid.IntRange(0, 2).Draw(t, label+".n"))
+	case 1:
+		return fmt.Sprintf(" ORDER BY %s%s LIMIT %d OFFSET %d", col, rapid.SampledFrom([]string{"", " DESC"}).Draw(t, label+".dir"), rapid.IntRange(1, 2).Draw(t, label+".n"), rapid.IntRange(0, 2).Draw(t, label+".m"))
+	case 2:
+		return fmt.Sprintf(" ORDER BY %s%s", col, rapid.SampledFrom([]string{"", " DESC"}).Draw(t, label+".dir"))
+	}
+	return ""
 }
